@@ -404,6 +404,75 @@ func (cc *chainCtx) decomposeOr(v ssa.Value) (int64, []orItem, bool) {
 			prefix = prefix[:n]
 		}
 		out := append([]orItem{}, prefix...)
+		if len(chs) > 2 {
+			// a join of more than two edges whose chains extend one another (an `if` that is the last statement of an enclosing
+			// `if` jumps straight to the outer join): the longest chain, each of its items under the condition that separates
+			// the edges that carry it from those that do not
+			longest := 0
+			for i, h := range chs {
+				if len(h.its) > len(chs[longest].its) {
+					longest = i
+				}
+			}
+			chain := true
+			for _, h := range chs {
+				for k := len(prefix); k < len(h.its); k++ {
+					if !same(h.its[k], chs[longest].its[k]) {
+						chain = false
+					}
+				}
+			}
+			if chain {
+				f := blk.Parent()
+				for k := len(prefix); k < len(chs[longest].its); k++ {
+					item := chs[longest].its[k]
+					if item.Cond != nil || len(item.Alt) > 0 {
+						out = append(out, item)
+						continue
+					}
+					var in, ex []*ssa.BasicBlock
+					for i, h := range chs {
+						if len(h.its) > k {
+							in = append(in, blk.Preds[i])
+						} else {
+							ex = append(ex, blk.Preds[i])
+						}
+					}
+					var best *condDesc
+					for _, b := range f.Blocks {
+						iff := blockIf(b)
+						if iff == nil {
+							continue
+						}
+						for e := 0; e < 2; e++ {
+							ok := true
+							for _, p := range in {
+								if !(b == p && false) && !DominatedByEdge(f, p.Instrs[len(p.Instrs)-1], b, e, PathQ{}) {
+									ok = false
+								}
+							}
+							for _, p := range ex {
+								if DominatedByEdge(f, p.Instrs[len(p.Instrs)-1], b, e, PathQ{}) {
+									ok = false
+								}
+							}
+							if ok && (best == nil || best.If.Block().Dominates(b)) {
+								best = &condDesc{If: iff, Edge: e, Desc: cc.descCond(iff.Cond, e)}
+							}
+						}
+					}
+					if best == nil {
+						chain = false
+						break
+					}
+					out = append(out, orItem{Mask: item.Mask, Cond: best})
+				}
+				if chain {
+					return chs[0].base, out, true
+				}
+				out = append([]orItem{}, prefix...)
+			}
+		}
 		var alts []orItem
 		for i, h := range chs {
 			tail := h.its[len(prefix):]
